@@ -124,6 +124,32 @@ pub fn laws(f: &dyn Fn(Option<usize>, Option<usize>) -> Out) -> String {
     }
 }
 
+/// the cost model documented with DecoderConfig::set_decoding_quota, for a value at its own type (labels are numeric: |k| = 4)
+pub fn doc_cost(env: &Env, v: &V, t: &T, table_len: usize, fuel: u32) -> usize {
+    if fuel == 0 { return 0; }
+    let t = match crate::val::trace(env, t) { Some(t) => t, None => return 0 };
+    let leb = |n: &num_bigint::BigUint| { let mut o = vec![]; let mut n = n.clone(); loop { let b = (&n & num_bigint::BigUint::from(0x7fu8)); n >>= 7; let _ = b; o.push(0u8); if n == num_bigint::BigUint::from(0u8) { break; } } o.len() };
+    match (v, t) {
+        (V::Nat(n), _) => leb(n),
+        (V::Int(z), _) => { let mut b = vec![]; candid::Int(z.clone()).encode(&mut b).unwrap(); b.len() }
+        (V::NatN(b, _), _) | (V::IntN(b, _), _) => (*b / 8) as usize,
+        (V::F32(_), _) => 4, (V::F64(_), _) => 8,
+        (V::Bool(_), _) | (V::Null, _) | (V::Reserved, _) => 1,
+        (V::Text(s), _) => 1 + s.len(),
+        (V::Opt(None), _) => 2,
+        (V::Opt(Some(x)), T::Opt(t1)) => 2 + doc_cost(env, x, t1, table_len, fuel - 1),
+        (V::Vec(xs), T::Vec(t1)) => 2 + 3 * xs.len() + xs.iter().map(|x| doc_cost(env, x, t1, table_len, fuel - 1)).sum::<usize>(),
+        (V::Rec(fs), T::Rec(ts)) => 2 + fs.iter().map(|(i, x)| 7 + 4 + ts.iter().find(|f| f.0 == *i).map(|f| doc_cost(env, x, &f.1, table_len, fuel - 1)).unwrap_or(0)).sum::<usize>(),
+        (V::Variant(i, x), T::Variant(ts)) => 2 + 5 + 4 + ts.iter().find(|f| f.0 == *i).map(|f| doc_cost(env, x, &f.1, table_len, fuel - 1)).unwrap_or(0),
+        (V::Principal(b), _) => std::cmp::max(30, b.len()),
+        (V::Service(b), _) => 2 + std::cmp::max(30, b.len()) + table_len,
+        (V::Func(b, m), _) => 2 + std::cmp::max(30, b.len()) + 1 + m.len() + table_len,
+        _ => 0,
+    }
+}
+/// the constant of "a small constant multiple of the documented cost model" that the checks enforce
+pub const DOC_FACTOR: usize = 4;
+
 pub fn eval(op: &str, a: &[&str]) -> Option<String> {
     Some(match op {
         "c07.decode" => {
@@ -137,6 +163,27 @@ pub fn eval(op: &str, a: &[&str]) -> Option<String> {
             let tys: Vec<Type> = ts.iter().map(|t| to_type_named(t, &names)).collect();
             let e = to_env_named(&env, &names);
             laws(&|qd, qs| decode_typed(&b, &e, &tys, &config(qd, qs)))
+        }
+        "p.c07.upper" => {
+            // a message written at types ts for values vs, decoded at exactly those types: both costs stay within
+            // DOC_FACTOR times the documented model (skipping counter: values only; decoding counter: 4*header + 50x values)
+            let env = env_from_sx(a[0]); let ts = tys_from(a[1]); let vs: Vec<V> = sx::parse(a[2]).list().iter().map(V::from_sx).collect(); let b = sx::unhex(a[3]);
+            let tys: Vec<Type> = ts.iter().map(|t| t.to_type()).collect();
+            let e = crate::ty::to_env(&env);
+            let mut c = std::io::Cursor::new(&b[..]);
+            let hdr = { use binread::BinRead; match candid::binary_parser::Header::read_args(&mut c, (None,)) { Ok(h) => h, Err(_) => return Some("header".into()) } };
+            let table_len = match hdr.to_types() { Ok((te, _)) => te.0.len() + env.len(), Err(_) => return Some("header".into()) };
+            let hlen = c.position() as usize;
+            let model: usize = vs.iter().zip(&ts).map(|(v, t)| doc_cost(&env, v, t, table_len, 40)).sum();
+            match decode_typed(&b, &e, &tys, &config(Some(BIG), Some(BIG))) {
+                Out::Ok(got, Some(d), Some(s)) => {
+                    if got != vs { return Some("decoded-values-differ".into()); }
+                    if s > DOC_FACTOR * model { return Some(format!("skipping-cost {} > {} * model {}", s, DOC_FACTOR, model)); }
+                    if d > DOC_FACTOR * (4 * hlen + 50 * model) { return Some(format!("decoding-cost {} > {} * (4*{} + 50*{})", d, DOC_FACTOR, hlen, model)); }
+                    "ok".to_string()
+                }
+                o => format!("unexpected {}", o.sx()),
+            }
         }
         "p.c07.laws_untyped" => { let b = sx::unhex(a[0]); laws(&|qd, qs| decode_untyped(&b, &config(qd, qs))) }
         _ => return None,
@@ -229,6 +276,9 @@ pub fn generate(thorough: bool, r: &mut Rng, em: &mut Emit) {
         let enames: Vec<String> = ee.iter().map(|d| d.0.clone()).collect();
         let names = if r.coin(2, 3) { all_names() } else { Names::new() };
         emit_quota_cases(em, r, &ee, &same, &names, &hexmsg, nt);
+        // (references over an uninhabited record cycle do not decode at their own type: known finding of C10)
+        let c10_finding = crate::ops::c03::has_record_cycle(&ee) && same.iter().any(|t| crate::ops::c03::has_ref(&ee, t, 3));
+        if pad == 0 && !c10_finding { em.case_nt("p.c07.upper", &[env_sx(&ee), tys_sx(&same), format!("({})", vals_sx(&vs)), hexmsg.clone()], nt); }
         for variant in 0..3 {
             let ee2: Env = ee.iter().map(|(n, t)| { let m = if r.coin(1, 2) { remap_t(&mutate_type(r, t, &enames, &cfg)) } else { t.clone() }; (n.clone(), if matches!(m, T::Var(_)) { t.clone() } else { m }) }).collect();
             let mut tes: Vec<T> = same.iter().map(|t| if r.coin(2, 3) { remap_t(&mutate_type(r, t, &enames, &cfg)) } else { t.clone() }).collect();
@@ -245,8 +295,12 @@ pub fn generate(thorough: bool, r: &mut Rng, em: &mut Emit) {
             let m = mutate_bytes(r, &msg);
             let hm = sx::hex(&m);
             em.stat("bytes.mutant");
-            em.case_nt("c07.decode_untyped", &[hm.clone(), q_sx(Some(BIG)), q_sx(Some(BIG))], true);
-            em.case_nt("p.c07.laws_untyped", &[hm.clone()], true);
+            // a mutated count can ask for 2^60 zero-sized values: only a quota stops that, so the unmetered runs are left out then
+            em.case_nt("c07.decode_untyped", &[hm.clone(), "20000000".into(), "400000".into()], true);
+            if decode_untyped(&m, &config(Some(20_000_000), None)) != Out::Quota {
+                em.case_nt("c07.decode_untyped", &[hm.clone(), q_sx(Some(BIG)), q_sx(Some(BIG))], true);
+                em.case_nt("p.c07.laws_untyped", &[hm.clone()], true);
+            } else { em.stat("bytes.mutant.metered-only"); }
             em.case_nt("c07.decode", &[env_sx(&ee), tys_sx(&same), names_sx(&names), hm, "100000".into(), "2000".into()], true);
         }
     }
